@@ -63,6 +63,52 @@ theorem gen_loopContinues_eq (f : Bool) : NV.Gen.C11.loopContinues (if f then 1 
 /-- **statement order of destruct_object**: inventory hooks, then set_heart_beat (ob, 0), then the O_DESTRUCTED store -/
 theorem gen_destructOrder_eq : NV.Gen.C11.destructOrder = [0, 1, 2] := rfl
 
+/-- **memmove of the removal branch**: `if ((num = num_hb_objs - (index + 1))) memmove (heart_beats + index, heart_beats +
+    (index + 1), num * sizeof (heart_beat_t)); num_hb_objs--;` -/
+theorem gen_rmMove_eq (index n : Int) :
+    NV.Gen.C11.rmMove index n = (index, index + 1, n - (index + 1), decide (n - (index + 1) ≠ 0), n - 1) := rfl
+
+/-- ... which on the list is "erase the entry at `index`" (for an index inside the array) -/
+theorem applyMove_eq_erase (l : List Entry) (i : Nat) (h : i < l.length) :
+    applyMove l (NV.Gen.C11.rmMove (i : Int) (l.length : Int)) = l.eraseIdx i := by
+  rw [gen_rmMove_eq]
+  unfold applyMove
+  simp only
+  have h1 : (i : Int).toNat = i := by omega
+  have h2 : ((i : Int) + 1).toNat = i + 1 := by omega
+  have h3 : ((l.length : Int) - ((i : Int) + 1)).toNat = l.length - (i + 1) := by omega
+  have h4 : ((l.length : Int) - 1).toNat = l.length - 1 := by omega
+  rw [h1, h2, h3, h4, List.eraseIdx_eq_take_drop_succ]
+  by_cases hg : (l.length : Int) - ((i : Int) + 1) ≠ 0
+  · rw [decide_eq_true hg, if_pos rfl]
+    have ht : (l.drop (i + 1)).take (l.length - (i + 1)) = l.drop (i + 1) :=
+      List.take_of_length_le (by simp)
+    rw [ht]
+    apply List.take_left'
+    simp only [List.length_append, List.length_take, List.length_drop]
+    omega
+  · rw [decide_eq_false hg, if_neg (by decide)]
+    have hi : i + 1 = l.length := by omega
+    have hd : l.drop (i + 1) = [] := by rw [hi]; exact List.drop_length
+    rw [hd, List.append_nil]
+    congr 1
+    omega
+
+/-- **query_heart_beat** answers 0 for an object without O_HEART_BEAT, else the interval (`time_to_heart_beat`) of its
+    entry, else 0 -/
+theorem gen_queryReturns_eq : NV.Gen.C11.queryReturns = [0, 1, 0] := rfl
+
+/-- **reload_object**: O_ENABLE_COMMANDS cleared, then `set_heart_beat (obj, 0)`, then create() -/
+theorem gen_reloadOrder_eq : NV.Gen.C11.reloadOrder = [0, 1, 2] := rfl
+
+/-- **clone_object**: the blueprint's heart beat is switched off before create() of the clone runs -/
+theorem gen_cloneOrder_eq : NV.Gen.C11.cloneOrder = [0, 1] := rfl
+
+/-- **search loop of the removal branch**: from `num_hb_objs` downwards, `while (index--)`, not found = `index < 0` -/
+theorem gen_search_eq (n i : Int) :
+    NV.Gen.C11.searchStart n = n ∧ NV.Gen.C11.searchNext i = (i - 1, decide (i ≠ 0)) ∧
+    NV.Gen.C11.searchMiss i = decide (i < 0) := ⟨rfl, rfl, rfl⟩
+
 theorem timerFlagHeartbeat_val : NV.Gen.C11.timerFlagHeartbeat = 2 := rfl
 
 /-- the guard of the round: `(MAIN_OPTION (timer_flags) & TIMER_FLAG_HEARTBEAT) && (num_hb_to_do > 0)` (after
@@ -188,9 +234,10 @@ theorem setHeartBeat_eq_ref (w : World) (ob : Nat) (to : Int) : setHeartBeat w o
   cases hidx : idxOf ob w.hbs with
   | none => rfl
   | some index =>
+    have hmv := applyMove_eq_erase w.hbs index (idxOf_lt hidx)
     by_cases htodo : w.todo = 0
-    · simp [htodo]
-    · simp [htodo]
+    · simp [htodo, hmv]
+    · simp [htodo, hmv]
 
 /-- the round loop in the hand-written form that the invariant proofs unfold -/
 def roundRef (sc : Scripts) : Nat → World → World × List Ev
